@@ -105,7 +105,7 @@ _scope(
         (AX, AP, _Q1),
         (_Q2, AP, _Q1),
         (L("x"), B("b"), _Q2),
-        (_Q1, AP, AX),
+        (AX, _Q1, _Q2),  # a quoted triple as predicate (generalized) and as object
         (B("x"), B("x"), B("x")),
     ],
     [(8, 0, 1), (8, 2, 1), (8, 1, 2), (4000, 150, 32)],
@@ -157,7 +157,8 @@ _scope(
         (B("a b"), _SENT, L("x", "EN-gb")),
         (B("_:x"), AP, L("x", "en-GB")),
         (_SENT, AP, L("", None, XSD_STRING)),
-        (B("é"), AP, L("x", "EN")),
+        # (a language-tagged string that also states its datatype rdf:langString)
+        (B("é"), AP, L("x", "EN", "http://www.w3.org/1999/02/22-rdf-syntax-ns#langString")),
         (AX, AP, L("x", None, XSD_STRING + " ")),
         (B(""), I(""), L("\x00\n\t\"")),
     ],
